@@ -22,4 +22,8 @@ Extraction "model.ml"
   (* DeriveType *) to_values from_element db_keys select_pairs upsert_pairs
   (* Auth *) Auth.init_state Auth.step Auth.authorize sessions_of kind_is_write kind_read_allowed kind_audited
              doc_perm doc_allows tag_of holds_of
-  (* Paths *) files dirs resolve name_defect_of valid_name escapes clashes op_creates op_removes paths_of_kinds.
+  (* Paths *) files dirs resolve name_defect_of valid_name escapes clashes op_creates op_removes paths_of_kinds
+  (* Collections *) cp_run cbind cp_value cv_new cv_from_storage cv_step cv_run cv_remove_from_storage ce_u64 ce_i64 ce_string ce_raw ce_state
+                    cl_step cl_run cm_new cm_from_storage cm_step cm_run ct_step cg_new cg_from_storage cg_step cg_run ga_step
+                    cg_free_index cg_node_count cg_set_node_count cr_load cr_store cr_create
+                    ce_dbvalue ce_pair ce_dbkv.
